@@ -1,11 +1,11 @@
 #!/bin/sh
 # run every claimed check once (tier $1, default quick) and print a summary
-cd /verif
+cd "$(dirname "$0")/.."
 tier=${1:-quick}
 for p in $(python3 -c "import json;print(' '.join(c['property_id'] for c in json.load(open('MANIFEST.json'))['checks']))"); do
   s=$(date +%s)
-  ./check $p --tier $tier > /tmp/runall_$p.log 2>&1
+  ./check $p --tier $tier > ${RUNALL_OUT:-/tmp}/runall_$p.log 2>&1
   rc=$?
   e=$(date +%s)
-  echo "$p rc=$rc $((e-s))s $(tail -n 1 /tmp/runall_$p.log | cut -c1-120)"
+  echo "$p rc=$rc $((e-s))s $(tail -n 1 ${RUNALL_OUT:-/tmp}/runall_$p.log | cut -c1-120)"
 done
